@@ -16,10 +16,11 @@ EXPLANATION = (
     "non-strict forms are violations, unknown forms fail closed). C06.7: Encrypted/Compressed constructors' Ok exit is dominated "
     "by has_digest. C06.8: every bytes->CBOR conversion in the crate uses the validating dcbor parser. C06.9: no undischarged "
     "panic site in the decode-reachable set (shared ledger with C16). C06.12: the public decode entry points funnel into from_tagged_cbor exactly once (no entry point strips, tolerates or peels tags itself). Does not decide dcbor's rejection of non-deterministic "
-    "CBOR or Digest::from_data_ref's length check (dependency summaries), nor stack exhaustion on unbounded nesting.")
+    "CBOR or Digest::from_data_ref's length check (dependency summaries), nor stack exhaustion on unbounded nesting."
+    " C06.3 also: under both leaf tags the leaf is the tagged item itself.")
 TRUSTED = ['Digest::from_data_ref rejects data whose length is not 32', 'CBOR::try_from_data accepts only deterministic CBOR',
            'EncryptedMessage::has_digest / Compressed::has_digest report whether a digest is declared']
-FLOORS = {'C06.1': 1, 'C06.2': 1, 'C06.3': 9, 'C06.6': 1, 'C06.7': 2, 'C06.11': 8, 'C06.12': 3}
+FLOORS = {'C06.1': 1, 'C06.2': 1, 'C06.3': 10, 'C06.6': 1, 'C06.7': 2, 'C06.11': 8, 'C06.12': 3}
 
 
 def strict_order_closure(F, clo):
@@ -316,6 +317,23 @@ def check(ctx):
     if not dec['wild_accepts']:
         ctx.ok('C06.3', ctx.site(b), 'no accept exit in either wildcard arm')
 
+    # the leaf tags (#6.201 and its listed alias #6.24) carry the leaf's CBOR inline: the leaf IS the tagged item, whatever it is - no
+    # second parse, no unpacking of a byte string (so the alias re-encodes to exactly the same leaf, and nothing under it is refused)
+    leafs = [(bi, si, t, tags) for bi, si, t, kind, tags, vs in dec['accepts'] if 'Leaf' in vs]
+    if not leafs:
+        ctx.lost('C06.3', 'leaf accept exit')
+    for bi, si, t, tags in leafs:
+        v = strip_sites(detry(t))
+        v = strip_sites(detry(v[3][0])) if v[0] == 'agg' and v[2] == 'Ok' and v[3] else v
+        a = m_call(v, name='new_leaf')
+        x = strip_sites(detry(a[0])) if a is not None else None
+        while x is not None and x[0] == 'call' and call_name(x) in ('clone', 'deref', 'borrow', 'into') and len(x[2]) == 1:
+            x = strip_sites(detry(x[2][0]))
+        if x is not None and x[0] == 'vfield' and x[2:] == ('Tagged', '1') and m_call(x[1], name='as_case') is not None:
+            ctx.ok('C06.3', ctx.site(b, bi, si), 'leaf tags %s: the leaf is the tagged item itself' % sorted(tags or []))
+        else:
+            ctx.fail('C06.3', ctx.site(b, bi, si), 'under leaf tag(s) %s the decoder builds %s, not new_leaf(the tagged item): the alias is not read like the leaf tag' % (sorted(tags or []), fmt(v)[:160]),
+                     key='C06.3|leafvalue')
     node_accepts = [(bi, si, t) for bi, si, t, kind, tags, vs in dec['accepts'] if kind == 'Array']
     if not node_accepts:
         ctx.lost('C06.1', 'node accept exit')
